@@ -307,7 +307,7 @@ class FloorTracer:
                 self.apply_force()
             e = env._events[0] if env._events else None
             self.occs, self.sdlog = [], []
-            info = {'op': 'step'}
+            info = {'op': 'step', 'direct': False}
             if e is not None:
                 pe = self.proj_event(e)
                 info.update(time=pe[0], prio=pe[1], asset=pe[2], kind=pe[3], cancelled=pe[4], arg=pe[5])
@@ -343,7 +343,7 @@ class FloorTracer:
     # -- scripted calls --------------------------------------------------------------------------------
     def schedule_script(self):
         for i, c in enumerate(self.cfg.get('script') or []):
-            if c.get('pre'):
+            if c.get('pre') or c.get('between'):
                 continue
             self.pending_script.append((c['t'] * TICK, SCRIPT, ScriptAct(self, i, c), c.get('prio', 20) / 10.0))
 
@@ -390,6 +390,14 @@ class FloorTracer:
             self.m.system.simulate((c - t0) * TICK, print_summary=False)
             self.log({'op': 'run_end', 't0': t0, 'd': c - t0})
             t0 = c
+            for i, sc in enumerate(cfg.get('script') or []):
+                if sc.get('between') and sc['t'] == c:
+                    self.occs, self.sdlog = [], []
+                    self.do_call(sc)
+                    self.log({'op': 'step', 'direct': True, 'time': tk(self.env.now), 'prio': 0, 'asset': SCRIPT,
+                              'kind': 'script', 'cancelled': False, 'arg': i + 1, 'minhead': True,
+                              'occ': self.occs, 'sd': self.sdlog, 'recs': self.new_recs()})
+                    self.occs, self.sdlog = [], []
 
 
 def run_cfg(tid, cfg, seed=0, max_steps=20000, light=True, force=None):
